@@ -365,6 +365,23 @@ def shard_fn(shard, nshards, seed, tier, exe, npairs, ncopies):
         cmds = ["B 0 " + " ".join(a), "NAV 0 5 " + " ".join(p2), "SS 5 0 1", "S64 0", "DCOPY 0 1 0", "S64 1", "PUT 0", "S64 1", "PUT 1"]
         cases.append((cid, cmds))
         udmeta[cid] = ("serfn",)
+    # one NaN node sitting in two containers (shared through json_object_get): "a NaN equals only the identical node" -- and it IS the identical node, at any depth;
+    # the control pair holds two different NaN nodes at the same place
+    for j in range(6):
+        wrap = rng.choice([0, 1, 2, 5])
+        obj = rng.random() < 0.5
+        NANB = "7ff8000000000000"
+        cmds = ["NEW 1 - dbl " + NANB, "GET 1 2", "NEW 4 - dbl " + NANB]
+        for (h, src) in ((0, 1), (3, 2), (6, 4)):
+            cmds.append("NEW %d - %s" % (h, "obj" if obj else "arr"))
+            cmds.append(("OADD %d x%s %d 0" % (h, b"n".hex(), src)) if obj else "AADD %d %d" % (h, src))
+            for w in range(wrap):
+                # one more container around it: the shared node sits deeper
+                cmds += ["NEW 7 - arr", "AADD 7 %d" % h, "ALIAS 7 %d" % h]
+        cmds += ["EQ 0 3", "EQ 3 0", "EQ 0 6", "EQ 6 0", "EQ 0 0", "PUT 0", "PUT 3", "PUT 6"]
+        cid = "%d.nan%d" % (shard, j)
+        cases.append((cid, cmds))
+        udmeta[cid] = ("nanshare", wrap)
     # very deep trees (thousands of levels): equality, deep copy and the copy's independence are recursive in the implementation and must not tire
     for j in range(2 if shard < 8 else 0):
         K = rng.choice([300, 1000, 1023, 1024, 1025, 2047, 2048, 2049, 3000, 4096, 4097, 5000])
@@ -397,6 +414,24 @@ def shard_fn(shard, nshards, seed, tier, exe, npairs, ncopies):
         sh.violation("C09/%s/%s/%s" % (kind_, frame, (meta[cr.cid][0] if cr.cid in meta else "copy-family")), "memory error (%s) at command #%d %s" % (kind_, i, cmdmap[cr.cid][i][:80]),
                      {"driver": "jcdrv", "variant": "asan", "script": cmdmap[cr.cid], "stderr": cr.stderr[-2500:]})
     for cid, lines in results.items():
+        if cid in udmeta and isinstance(udmeta[cid], tuple) and udmeta[cid][0] == "nanshare":
+            cmds = cmdmap[cid]
+            rep = {"driver": "jcdrv", "variant": "asan", "script": cmds}
+            eq = [l.split()[1] for c, l in zip(cmds, lines) if c.startswith("EQ ")]
+            sh.evaluations += 5
+            if any(l.startswith("!") for l in lines):
+                raise core.Inconclusive("driver rejected a command in %s: %s" % (cid, [l for l in lines if l.startswith("!")][:2]))
+            if eq[0] != "1" or eq[1] != "1":
+                sh.violation("C09/nan/shared-node-compares-unequal", "two containers holding the SAME NaN node (%d levels down) compare as %s/%s" % (udmeta[cid][1], eq[0], eq[1]), rep)
+            elif eq[2] != "0" or eq[3] != "0":
+                sh.violation("C09/nan/different-nodes-compare-equal", "containers holding two different NaN nodes compare as %s/%s" % (eq[2], eq[3]), rep)
+            elif eq[4] != "1":
+                sh.violation("C09/not-reflexive", "equal(x,x) = %s for a container holding a NaN" % eq[4], rep)
+            elif lines[-1].split()[1] != "live=0":
+                sh.violation("C09/leak", "blocks left: " + lines[-1], rep)
+            sh.count("nan_node_shared_between_two_containers")
+            sh.nontrivial("\n".join(cmds))
+            continue
         if cid in udmeta and isinstance(udmeta[cid], tuple) and udmeta[cid][0] == "deep":
             cmds = cmdmap[cid]
             K = udmeta[cid][1]
